@@ -451,6 +451,7 @@ static void register_properties()
     auto sc = gen::build<StressCase>(gen::set(&StressCase::rounds, pbt::range<int>(2000, 30000)), gen::set(&StressCase::bodyNs, gen::element<int>(0, 0, 50, 500, 5000)),
         gen::set(&StressCase::gapNs, gen::element<int>(1, 100, 1000, 20000)), gen::set(&StressCase::launch, gen::weightedElement<int>({{4, 0}, {1, 1}})));
     pbt::property<StressCase>("stress_no_hooks", 12, sc, stress_case);
+  pbt::registry().back()->noShrink = true;
   }
   const char *only = getenv("C03_STRESS_ONLY");
   if (only && *only == '1')
